@@ -370,10 +370,25 @@ func c05EncodingConsulted(c *Ctx, r *Report) {
 				if !ok || (cmp.Op != token.EQL && cmp.Op != token.NEQ) {
 					continue
 				}
+				// the flag itself, or the effective encoding computed from it (FindInputEncoding
+				// returns the flag whenever the flag is not the default)
+				encLike := func(v ssa.Value) bool {
+					if v == ssa.Value(enc) {
+						return true
+					}
+					if call, ok := v.(*ssa.Call); ok && strings.HasSuffix(CalleeName(&call.Call), ".FindInputEncoding") {
+						for _, a := range call.Call.Args {
+							if a == ssa.Value(enc) {
+								return true
+							}
+						}
+					}
+					return false
+				}
 				var k *ssa.Const
-				if cmp.X == ssa.Value(enc) {
+				if encLike(cmp.X) {
 					k, _ = cmp.Y.(*ssa.Const)
-				} else if cmp.Y == ssa.Value(enc) {
+				} else if encLike(cmp.Y) {
 					k, _ = cmp.X.(*ssa.Const)
 				}
 				if k == nil || k.Value == nil {
